@@ -286,7 +286,8 @@ theorem reversed_range_empty (t : Task) (hp : t.payload = none) (h : t.rangeEnd 
 polynomial of a re-initialised round: every other step returns ok or reject -/
 theorem panic_only_from_callbacks (st : NodeSt) (m : NMsg) (now : Time) (payloadOf : Tasks.Msg → Bytes)
     (h : (processMessage st m now payloadOf).out = .panic) :
-    ∃ st2 inst2 ev arg, doPanics inst2 ev arg = true ∧ (ev.name == m.event) = true ∧ st2 = st := by
+    ∃ inst inst2 ev arg, getInstance st m.round = some (st, inst) ∧ preSteps st inst m now = .cont st inst2 ∧
+      doPanics inst2 ev arg = true ∧ (ev.name == m.event) = true := by
   unfold processMessage at h
   cases hg : getInstance st m.round with
   | none => simp [hg, rejectWith] at h
@@ -330,7 +331,9 @@ theorem panic_only_from_callbacks (st : NodeSt) (m : NMsg) (now : Time) (payload
                 · simp [rejectWith] at h
                 · unfold applyEvent at h
                   by_cases hdp : doPanics inst' ev (m.arg.getD .other) = true
-                  · exact ⟨st', inst', ev, _, hdp, by simpa using List.find?_some hf, hp⟩
+                  · have hst' : st' = st1 := hp
+                    subst hst'
+                    exact ⟨inst, inst', ev, _, rfl, hpre, hdp, by simpa using List.find?_some hf⟩
                   · simp only [hdp, Bool.false_eq_true, ↓reduceIte] at h
                     exfalso
                     cases hd : doOrReject inst' ev (m.arg.getD .other) with
